@@ -27,7 +27,7 @@ for _nd in (1, 2, 3):
 
 # C16.b indices <-> coordinates, unrotated
 _COORDTUS = ['src/Basic/Grid.cpp', 'src/Basic/Rotation.cpp', 'src/Basic/Utilities.cpp', 'src/Basic/AStringable.cpp']
-for _nd in (1, 2):
+for _nd in (1, 2, 3):
     K('C16.b.%d' % _nd, property='C16', engine='symex', harness='C16/coord.cpp',
       entries=['k_node_roundtrip', 'k_percent', 'k_point_to_cell'],
       tus=_COORDTUS, defines={'all': {'VF_ND': _nd}},
@@ -41,3 +41,75 @@ for _nd in (1, 2):
       assumptions=['real-arithmetic reading of the code', 'Grid object is raw storage with _nDim, _nx, _x0, _dx, _rotation._flagRot=false and the work vectors initialised', 'coordinates below 1e30 in absolute value (1.234e30 is the library\'s undefined value)',
                    'cell-boundary points excluded as a band of relative width eps = 1e-6 on each side of a face (eps is the documented round-off guard argument)'],
       stubs=[])
+
+# C16.e derived grids (multiple / divider; dilate separately), unrotated
+for _nd in (1, 2):
+    K('C16.e.%d' % _nd, property='C16', engine='symex', harness='C16/derived.cpp',
+      entries=['k_multiple', 'k_divider', 'k_div_mult'],
+      tus=_COORDTUS, defines={'all': {'VF_ND': _nd}},
+      bounds={'quick': 'ndim = %d, unrotated; x0, dx > 0 arbitrary reals; nx[d] in [1,1024]; nmult[d] in [1,16]; cell and point matching; '
+                       'every coarse / refined node index' % _nd},
+      timeout_ms={'quick': 120000, 'thorough': 600000}, validate={'quick': 30, 'thorough': 60}, validate_doubles='dyadic',
+      what='Grid::multiple, Grid::divider (with indicesToCoordinateInPlace, getNX/getDX/getX0): node counts, meshes and the position of '
+           'the derived nodes relative to the parent nodes / cell centres; multiple(divider(g)) == g',
+      out='rotated grids; value transfer of DbGrid::createCoarse/createRefine; floating-point rounding',
+      assumptions=['real-arithmetic reading of the code', 'Grid object is raw storage with _nDim, _nx, _x0, _dx, _rotation._flagRot=false and the work vectors initialised'],
+      stubs=[])
+    K('C16.e.%d.dilate' % _nd, property='C16', engine='symex', harness='C16/derived.cpp', entries=['k_dilate'],
+      tus=_COORDTUS, defines={'all': {'VF_ND': _nd}},
+      bounds={'quick': 'ndim = %d, unrotated; x0, dx > 0 arbitrary reals; nx[d] in [1,1024]; nshift[d] in [0,64], mode +1/-1' % _nd},
+      timeout_ms={'quick': 120000, 'thorough': 600000}, validate={'quick': 30, 'thorough': 60}, validate_doubles='dyadic',
+      what='Grid::dilate (with indicesToCoordinate, indicesToCoordinateInPlace, getNX/getDX): nx + 2*mode*nshift nodes, same mesh, '
+           'node i of the dilated grid is node i - mode*nshift of the parent',
+      out='rotated grids; calls that make some nx <= 0 (the function returns without an answer); floating-point rounding',
+      assumptions=['real-arithmetic reading of the code', 'Grid object is raw storage with _nDim, _nx, _x0, _dx, _rotation._flagRot=false and the work vectors initialised'],
+      stubs=[])
+
+
+# C16.d rotated 2-D grid (real Grid / Rotation / MatrixSquareGeneral objects)
+def _trig_opts(symex, z3):
+    def pyth(name, other):
+        def hook(f, args, app):
+            g = z3.Function('uf_' + other, z3.RealSort(), z3.RealSort())
+            o = g(args[0])
+            return [app * app + o * o == 1, app <= 1, app >= -1]
+        return hook
+    return {'libm_axioms': {'cos': pyth('cos', 'sin'), 'sin': pyth('sin', 'cos')}}
+
+
+def _circle(x):
+    # concrete arguments (translator validation runs): a rational point ON the unit circle within ~1e-12 of
+    # (cos x, sin x), so that the Pythagoras axiom assumed for the uninterpreted cos/sin also holds in concrete runs
+    import math
+    from fractions import Fraction
+    q = Fraction(math.tan(float(x) / 2)).limit_denominator(1 << 40)
+    return (1 - q * q) / (1 + q * q), 2 * q / (1 + q * q)
+
+
+def _cos_native(x):
+    return _circle(x)[0]
+
+
+def _sin_native(x):
+    return _circle(x)[1]
+
+
+_ROTTUS = ['src/Basic/Grid.cpp', 'src/Basic/Rotation.cpp', 'src/Basic/Utilities.cpp', 'src/Basic/AStringable.cpp',
+           'src/Geometry/GeometryHelper.cpp', 'src/Matrix/MatrixSquareGeneral.cpp', 'src/Matrix/AMatrixSquare.cpp',
+           'src/Matrix/MatrixRectangular.cpp', 'src/Matrix/AMatrixDense.cpp', 'src/Matrix/AMatrix.cpp', 'src/Basic/VectorHelper.cpp']
+for _tag, _ents in (('nodes', ['k_rot_matrix', 'k_rot_nodes']), ('cell', ['k_rot_roundtrip', 'k_rot_point'])):
+    K('C16.d.' + _tag, property='C16', engine='symex', harness='C16/rot.cpp', entries=_ents, tus=_ROTTUS,
+      defines={'all': {'VF_ASSUME_ROT': 1} if _tag == 'cell' else {}},
+      symex_opts=_trig_opts, symex={'libm_exact': {'cos': _cos_native, 'sin': _sin_native}},
+      bounds={'quick': 'ndim = 2; rotation angle an arbitrary real in (-360, 360) degrees; x0, dx > 0 arbitrary reals; nx[d] in [1,1024]; '
+                       'node / cell indices arbitrary ints in [-2^20, 2^20] (in [0,nx) for the rank-based accessors); eps = EPSILON6'},
+      timeout_ms={'quick': 60000, 'thorough': 600000}, validate={'quick': 20, 'thorough': 40}, validate_doubles='dyadic',
+      what='Grid(ndim,nx,x0,dx), Grid::setRotationByAngle, Rotation::setAngles/_directToInverse/_checkRotForIdentity/rotateDirect/rotateInverse, '
+           'GH::rotationMatrixInPlace, MatrixSquareGeneral (Eigen) storage and prodMatVecInPlace; Grid::indicesToCoordinateInPlace, indiceToCoordinate, '
+           'getCoordinatesByIndice, getCoordinatesByRank, getCoordinate, coordinateToIndicesInPlace: the direct matrix is a rotation and is used for every '
+           'index -> coordinate conversion, its transpose for coordinate -> index; round trip and point-to-cell assignment on the rotated grid',
+      out='3-D rotations; the sign convention of the angle; floating-point rounding; getCellCoordinatesByCorner / getCoordinatesByCorner',
+      assumptions=['real-arithmetic reading of the code', 'cos, sin: uninterpreted functions with cos(x)^2 + sin(x)^2 = 1 (and |.| <= 1)',
+                   'a matrix within 1e-10 of the identity counts as "not rotated" (the library\'s own flag): the identity is then the matrix in force',
+                   'coordinates below 1e30 in absolute value'],
+      stubs=['cos/sin: uninterpreted + Pythagoras axiom (symex libm_axioms); on concrete arguments (validation runs) a rational point of the unit circle within 1e-12 of the libm values'])
